@@ -321,6 +321,11 @@ def text_job(n, shard):
             isreg = nm in ('rd', 'rs1', 'rs2', 'rd_rs1') and not (not mn.startswith('c.') and rvref.fmt_of(mn) == 'CSR' and nm == 'rs1' and mn.endswith('i'))
             parts.append(('x%d' % x) if isreg else str(x))
         line = mn + ' ' + ', '.join(parts)
+        if mn in ('lb', 'lh', 'lw', 'lbu', 'lhu', 'jalr', 'sb', 'sh', 'sw', 'c.lw', 'c.sw') and rnd.randrange(2) and len(parts) == 3:
+            # the imm(reg) spelling of base+offset instructions: the same operand rules apply
+            d3 = dict(zip(names, parts))
+            first = d3.get('rd', d3.get('rs2'))
+            line = '%s %s, %s(%s)' % (mn, first, d3['imm'], d3['rs1'])
         for comp in (False, True):
             res.evaluations += 1
             try:
